@@ -48,6 +48,7 @@ C4d == {0, 1, 3, 4}
 MV23s == {<<2, 3>>, <<2, 3, 2>>}
 MV7s == {<<1, 2>>, <<2, 4, 2>>}
 MV11s == {<<3, 4, 3>>}
+MV11t == {<<3, 4>>, <<1, 1>>}
 
 Pars == {pr \in [G : {G}, var : Vars, N : Ns, sigma : 0..7, M : MsgVecs] : ParOK(pr)}
 Init == st \in {Fresh(pr) : pr \in Pars}
@@ -64,7 +65,7 @@ Spec == Init /\ [][Next]_st
 \* measure of the honest failures: exactly the coin vectors with a collision (1-of-2: q^2 of q^3, i.e. 1/q)
 AbortMeasure ==
   (CCoins = AllZq) =>
-    \A pr \in Pars : pr.var # "opt" =>
+    \A pr \in Pars : (pr.var # "opt" /\ pr.N <= 3) =>
        LET all == [1..NCC(pr.var, pr.N) -> AllZq]
            bad == {cc \in all : ~Guards(G, pr.var, pr.N, QueryOf(pr, cc))}
            \* the other N-1 exponents are pairwise distinct and differ from ab: q-1, q-2, ... choices
@@ -72,6 +73,8 @@ AbortMeasure ==
            Falling(n, k) == IF k = 0 THEN 1 ELSE n * Falling(n - 1, k - 1)
            good == Q * Q * Falling(Q - 1, pr.N - 1) * (IF pr.var = "n" THEN Q ELSE 1)
        IN Cardinality(bad) = Cardinality(all) - good
+
+ASSUME AbortMeasure
 
 \* ---- slot theorem: a tree root -> a -> (a, b) -> (a, b, c), so that the workers share the leaves
 ThmInit == st = [k |-> 0]
